@@ -13,7 +13,26 @@ def rotTargets (us : List DUnit) : List Position :=
 
 /-- every label's end is in the same file as its start, and its end offset is the end offset of its commit event -/
 theorem C03_same_file (p : Position) (us : List DUnit) : ∀ t ∈ dexpected p us, t.next.file = t.now.file := by
-  sorry
+  induction us generalizing p with
+  | nil => simp [dexpected]
+  | cons u us ih =>
+    cases u with
+    | tx bq bn bt cs close next ts =>
+      intro t ht
+      simp only [dexpected, List.mem_cons] at ht
+      rcases ht with rfl | ht
+      · rfl
+      · exact ih _ t ht
+    | single c =>
+      intro t ht
+      simp only [dexpected] at ht
+      split at ht
+      · simp only [List.mem_cons] at ht
+        rcases ht with rfl | ht
+        · rfl
+        · exact ih _ t ht
+      · exact ih _ t ht
+    | _ => simpa [dexpected] using ih _
 
 /-- the start label equals the previous transaction's end label, or the initial position, or the target of an
     intervening rotation -/
@@ -21,20 +40,117 @@ theorem C03_chain (p : Position) (us : List DUnit) :
     (∀ t, (dexpected p us).head? = some t → t.now = p ∨ t.now ∈ rotTargets us) ∧
     (∀ k a b, (dexpected p us)[k]? = some a → (dexpected p us)[k + 1]? = some b →
         b.now = a.next ∨ b.now ∈ rotTargets us) := by
-  sorry
+  have hsub : ∀ (u : DUnit) (us : List DUnit) (x : Position), x ∈ rotTargets us → x ∈ rotTargets (u :: us) := by
+    intro u us x hx
+    unfold rotTargets at hx ⊢
+    rw [List.filterMap_cons]
+    split
+    · exact hx
+    · exact List.mem_cons_of_mem _ hx
+  have hhead : ∀ (us : List DUnit) (p : Position) (t : Transaction),
+      (dexpected p us).head? = some t → t.now = p ∨ t.now ∈ rotTargets us := by
+    intro us
+    induction us with
+    | nil => intro p t h; simp [dexpected] at h
+    | cons u us ih =>
+      intro p t h
+      cases u with
+      | tx bq bn bt cs close next ts =>
+        simp only [dexpected, List.head?_cons, Option.some.injEq] at h
+        subst h; exact Or.inl rfl
+      | single c =>
+        simp only [dexpected] at h
+        split at h
+        · simp only [List.head?_cons, Option.some.injEq] at h
+          subst h; exact Or.inl rfl
+        · exact (ih p t h).imp id (hsub _ _ _)
+      | rotate f o =>
+        simp only [dexpected] at h
+        rcases ih _ t h with h1 | h1
+        · exact Or.inr (by simp [rotTargets, h1])
+        · exact Or.inr (hsub _ _ _ h1)
+      | skip => exact (ih p t (by simpa [dexpected] using h)).imp id (hsub _ _ _)
+      | tableMap tid tc known => exact (ih p t (by simpa [dexpected] using h)).imp id (hsub _ _ _)
+      | format f => exact (ih p t (by simpa [dexpected] using h)).imp id (hsub _ _ _)
+  refine ⟨hhead us p, ?_⟩
+  induction us generalizing p with
+  | nil => intro k a b h; simp [dexpected] at h
+  | cons u us ih =>
+    intro k a b ha hb
+    have hcons : ∀ (T : Transaction) (q : Position), dexpected p (u :: us) = T :: dexpected q us → T.next = q →
+        b.now = a.next ∨ b.now ∈ rotTargets (u :: us) := by
+      intro T q he hq
+      rw [he] at ha hb
+      cases k with
+      | zero =>
+        simp only [List.getElem?_cons_zero, Option.some.injEq] at ha
+        simp only [Nat.zero_add, List.getElem?_cons_succ] at hb
+        subst ha
+        rw [← List.head?_eq_getElem?] at hb
+        rcases hhead us q b hb with h1 | h1
+        · exact Or.inl (h1.trans hq.symm)
+        · exact Or.inr (hsub _ _ _ h1)
+      | succ k =>
+        simp only [List.getElem?_cons_succ] at ha hb
+        exact (ih q k a b ha hb).imp id (hsub _ _ _)
+    have hskip : ∀ (q : Position), dexpected p (u :: us) = dexpected q us →
+        b.now = a.next ∨ b.now ∈ rotTargets (u :: us) := by
+      intro q he
+      rw [he] at ha hb
+      exact (ih q k a b ha hb).imp id (hsub _ _ _)
+    cases u with
+    | tx bq bn bt cs close next ts => exact hcons _ _ (by simp only [dexpected]; rfl) rfl
+    | single c =>
+      cases hc : changeNextTs c with
+      | none => exact hskip p (by simp [dexpected, hc])
+      | some nt =>
+        cases hs : seOf c with
+        | none => exact hskip p (by simp [dexpected, hc, hs])
+        | some se => exact hcons _ _ (by simp only [dexpected, hc, hs]; rfl) rfl
+    | rotate f o => exact hskip _ (by simp only [dexpected]; rfl)
+    | skip => exact hskip p (by simp only [dexpected])
+    | tableMap tid tc known => exact hskip p (by simp only [dexpected])
+    | format f => exact hskip p (by simp only [dexpected])
 
 /-- compositionality: what is delivered for us1 ++ us2 is what is delivered for us1 followed by what is delivered
     for us2 from the position reached — the basis of resumability -/
 theorem C03_split (p : Position) (us1 us2 : List DUnit) :
     dexpected p (us1 ++ us2) = dexpected p us1 ++ dexpected (dendPos p us1) us2 ∧
     dendPos p (us1 ++ us2) = dendPos (dendPos p us1) us2 := by
-  sorry
+  exact SL.dexpected_append p us1 us2
 
 /-- the end label of the last delivered transaction is the position reached (when the log ends in a committing unit
     possibly followed by ignorable units) -/
 theorem C03_end_label (p : Position) (us : List DUnit) (t : Transaction)
     (h : (dexpected p us).getLast? = some t) (hr : ∀ f o, DUnit.rotate f o ∉ us) : t.next = dendPos p us := by
-  sorry
+  have key : ∀ (us : List DUnit) (p : Position), (∀ f o, DUnit.rotate f o ∉ us) →
+      dendPos p us = ((dexpected p us).getLast?.map (·.next)).getD p := by
+    intro us
+    induction us with
+    | nil => intro p _; simp [dexpected, dendPos]
+    | cons u us ih =>
+      intro p hr
+      have hr' : ∀ f o, DUnit.rotate f o ∉ us := fun f o hm => hr f o (List.mem_cons_of_mem _ hm)
+      have hcons : ∀ (T : Transaction) (q : Position), dexpected p (u :: us) = T :: dexpected q us →
+          dendPos p (u :: us) = dendPos q us → T.next = q →
+          dendPos p (u :: us) = ((dexpected p (u :: us)).getLast?.map (·.next)).getD p := by
+        intro T q he hd hq
+        rw [he, hd, ih q hr', List.getLast?_cons]
+        cases (dexpected q us).getLast? <;> simp [hq]
+      cases u with
+      | tx bq bn bt cs close next ts => exact hcons _ _ (by simp only [dexpected]; rfl) (by simp only [dendPos]) rfl
+      | single c =>
+        cases hc : changeNextTs c with
+        | none => simp [dexpected, dendPos, hc, ih p hr']
+        | some nt =>
+          cases hs : seOf c with
+          | none => simp [dexpected, dendPos, hc, hs, ih p hr']
+          | some se => exact hcons _ _ (by simp only [dexpected, hc, hs]; rfl) (by simp only [dendPos, hc, hs]) rfl
+      | rotate f o => exact absurd (List.mem_cons_self) (hr f o)
+      | skip => simp [dexpected, dendPos, ih p hr']
+      | tableMap tid tc known => simp [dexpected, dendPos, ih p hr']
+      | format f => simp [dexpected, dendPos, ih p hr']
+  rw [key us p hr, h]; rfl
 
 /-- Resume: a fresh parser started at the position reached after us1 (whatever its format / table state), fed the
     remaining units, makes exactly the remaining calls — identical contents and labels, none skipped, none repeated. -/
@@ -44,7 +160,9 @@ theorem C03_resume (us1 us2 : List DUnit) (st st' : PState) (hi : Idle st) (hi' 
       = (runD (fun _ => true) st (((us1 ++ us2).flatMap devs).map some)).calls.drop (dexpected st.pos us1).length ∧
     (runD (fun _ => true) st' ((us2.flatMap devs).map some)).pos
       = (runD (fun _ => true) st (((us1 ++ us2).flatMap devs).map some)).pos := by
-  sorry
+  have hwf1 : ∀ u ∈ us2, WFUnit u := fun u hu => hwf u (by simp [hu])
+  rw [SL.run_all us2 st' hi' hwf1, SL.run_all (us1 ++ us2) st hi hwf, hpos]
+  simp [(SL.dexpected_append st.pos us1 us2).1, (SL.dexpected_append st.pos us1 us2).2]
 
 /-! non-vacuity -/
 example : dexpected ⟨[97], 4⟩ [.single (.stmt Facts.StatementCreate ⟨[], none, [99]⟩ 90 7), .rotate [98] 4,
